@@ -353,7 +353,7 @@ TRUSTED_COMMON = [
 ]
 
 
-def lean_obligations(chk, props_rel, tie=None, extra_targets=None):
+def lean_obligations(chk, props_rel, tie=None, extra_targets=None, extra_props=None):
     """Everything on the Lean side for one property:
        props_rel : e.g. 'BdModel/Props/C14.lean' (ends with #print axioms lines)
        tie       : {Area: [names of tie theorems this property depends on]}"""
@@ -364,10 +364,10 @@ def lean_obligations(chk, props_rel, tie=None, extra_targets=None):
         tie.setdefault("Glue", None)
     # one check at a time between the extraction from ITS tree and the elaboration of the ties against it
     with Lock("lean-phase"):
-        return _lean_obligations(chk, props_rel, tie, extra_targets)
+        return _lean_obligations(chk, props_rel, tie, extra_targets, extra_props or [])
 
 
-def _lean_obligations(chk, props_rel, tie, extra_targets):
+def _lean_obligations(chk, props_rel, tie, extra_targets, extra_props=()):
     try:
         ex = run_extract()
     except Exception as e:
@@ -376,7 +376,8 @@ def _lean_obligations(chk, props_rel, tie, extra_targets):
     for e in ex.get("errors") or []:
         chk.oblige("extract:" + e, False, e)
     mod = props_rel[:-5].replace("/", ".")
-    targets = [mod, "driver"] + ["BdModel.Extracted.%s" % a for a in tie] + ["BdModel.Canon.%s" % a for a in tie] + (extra_targets or [])
+    xmods = [x[:-5].replace("/", ".") for x in extra_props]
+    targets = [mod, "driver"] + xmods + ["BdModel.Extracted.%s" % a for a in tie] + ["BdModel.Canon.%s" % a for a in tie] + (extra_targets or [])
     rc, out = lake(targets)
     if rc != 0:
         # find which file failed
@@ -394,6 +395,14 @@ def _lean_obligations(chk, props_rel, tie, extra_targets):
     rc, out = lean_file(props_rel)
     ax = parse_axioms(out)
     errs = ERR_RE.findall(out)
+    # further property files of the same property (model areas added later: their theorems are audited the same way)
+    for x in extra_props:
+        rcx, outx = lean_file(x)
+        axx = parse_axioms(outx)
+        errs += ERR_RE.findall(outx)
+        if not axx:
+            chk.oblige("axiom-audit:" + x, False, "no #print axioms output:\n" + outx[-2000:])
+        ax.update(axx); out += outx
     for f, l, _ in errs:
         chk.oblige("theorem:" + theorem_at_line(os.path.join(LEAN, f) if not os.path.isabs(f) else f, int(l)), False, out[-3000:])
     if not ax and not errs:
@@ -423,7 +432,7 @@ def _lean_obligations(chk, props_rel, tie, extra_targets):
             if not ok:
                 detail = tie_diff(ex, cj, area, n)
             chk.oblige("tie:%s.%s" % (area, n), ok, detail)
-    bad = audit_sources(import_closure(props_rel) + import_closure('Driver/Main.lean'))
+    bad = audit_sources(import_closure(props_rel) + import_closure('Driver/Main.lean') + [f for x in extra_props for f in import_closure(x)])
     chk.oblige("source-audit(no sorry/axiom/native_decide/…)", not bad, "; ".join(bad))
     if chk.tier == "thorough":
         with Lock("lake"):
